@@ -1931,8 +1931,20 @@ func (p *parser) projection(prec int) (Node, error) {
 			return nil, err
 		}
 
-		node = &FilterCurrentNode{
-			Filter: filter,
+		child, err := p.projection(precedence(lexer.FilterToken))
+		if err != nil {
+			return nil, err
+		}
+
+		if child == nil {
+			node = &FilterCurrentNode{
+				Filter: filter,
+			}
+		} else {
+			node = &FilterAndProjectCurrentNode{
+				Filter: filter,
+				Child:  child,
+			}
 		}
 	case lexer.ObjectWildcardToken:
 		if p.next.Type == lexer.EndToken {
@@ -2053,9 +2065,22 @@ func (p *parser) projection(prec int) (Node, error) {
 				return nil, err
 			}
 
-			node = &FilterNode{
-				Child:  node,
-				Filter: filter,
+			right, err := p.projection(newPrec)
+			if err != nil {
+				return nil, err
+			}
+
+			if right == nil {
+				node = &FilterNode{
+					Child:  node,
+					Filter: filter,
+				}
+			} else {
+				node = &FilterAndProjectNode{
+					Left:   node,
+					Filter: filter,
+					Right:  right,
+				}
 			}
 		case lexer.ObjectWildcardToken:
 			if err := p.advance(); err != nil {
